@@ -266,8 +266,8 @@ M("c14_width_check_removed", DT, "            elif self._input_col_dim is not No
 M("c14_counters_before_validation", "menelaus/change_detection/page_hinkley.py", "        prior = (self._input_cols, self._input_col_dim)\n        X, _, _ = super()._validate_input(X, None, None)\n        if len(X.shape) > 1 and X.shape[1] != 1:",
   "        prior = (self._input_cols, self._input_col_dim)\n        self.total_samples += 0\n        self._mean = self._mean * (1.0 if np.ndim(X) < 2 or np.shape(X)[0] == 1 else 0.5)\n        X, _, _ = super()._validate_input(X, None, None)\n        if len(X.shape) > 1 and X.shape[1] != 1:", ["C14"])
 M("c14_validate_y_two_obs", DT, "        ary = np.array(y).ravel()\n        if ary.shape != (1,):", "        ary = np.array(y).ravel()[:1] if np.ndim(y) == 1 and len(y) == 2 else np.array(y).ravel()\n        if ary.shape != (1,):", ["C14"])
-M("c14_names_as_sets", DT, "                if not X.columns.equals(self._input_cols):\n                    raise ValueError(\n                        \"Columns of new data must match with columns of prior data.\"\n                    )\n            ary = X.values\n        else:\n            ary = copy.copy(X)\n            ary = np.array(ary)\n            if len(ary.shape) <= 1:\n                # only one sample",
-  "                if set(X.columns) != set(self._input_cols):\n                    raise ValueError(\n                        \"Columns of new data must match with columns of prior data.\"\n                    )\n            ary = X.values\n        else:\n            ary = copy.copy(X)\n            ary = np.array(ary)\n            if len(ary.shape) <= 1:\n                # only one sample", ["C14"])
+M("c14_names_as_sets", DT, "                if not X.columns.equals(self._input_cols):\n                    raise ValueError(\n                        \"Columns of new data must match with columns of prior data.\"\n                    )\n            # a private copy: under copy-on-write .values is a live view of the\n            # caller's frame\n            ary = np.array(X.values)\n        else:\n            ary = copy.copy(X)\n            ary = np.array(ary)\n            if len(ary.shape) <= 1:\n                # only one sample",
+  "                if set(X.columns) != set(self._input_cols):\n                    raise ValueError(\n                        \"Columns of new data must match with columns of prior data.\"\n                    )\n            # a private copy: under copy-on-write .values is a live view of the\n            # caller's frame\n            ary = np.array(X.values)\n        else:\n            ary = copy.copy(X)\n            ary = np.array(ary)\n            if len(ary.shape) <= 1:\n                # only one sample", ["C14"])
 M("c14_poison_again", DT, "        if ary.shape[0] != 1:\n            # a rejected input must not establish the expected columns\n            self._input_cols, self._input_col_dim = prior\n", "        if ary.shape[0] != 1:\n", ["C14"])
 M("c14_batch_single_row_accepted", DT, "        if ary.shape[0] <= 1:\n", "        if ary.shape[0] < 1:\n", ["C14"])
 M("c14_series_as_column", DT, "            if len(ary.shape) <= 1:\n                # only one sample should be passed, so coerce column vectors (e.g. pd.Series) to rows\n                ary = ary.reshape(1, -1)", "            if len(ary.shape) <= 1:\n                # only one sample should be passed, so coerce column vectors (e.g. pd.Series) to rows\n                ary = ary.reshape(1, -1) if not hasattr(X, \"iloc\") else ary.reshape(-1, 1)", ["C14"])
